@@ -20,7 +20,8 @@ struct Case {
     with_copy: bool,
     /// named fields are raw identifiers (r#type, r#fn, ..)
     raw: bool,
-    /// explicit bound(..) without `..`: 0 none, 1 on the type (`Clone(bound(T: Clone))`), 2 on the first field
+    /// explicit bound(..) without `..`: 0 none, 1 on the type (`Clone(bound(T: Clone))`), 2 on the first field,
+    /// 3 `Clone(bound())` on the FIRST VARIANT (whose fields are concrete): later variants keep their default bounds
     bound: usize,
     /// concrete flavours: 0 none, 1 field type `RecI` (inherent methods named clone / clone_from), 2 tuple-typed
     /// fields `(Rec, u8)`, 3 `#[repr(C)]` on the item
@@ -33,7 +34,7 @@ fn gen(ch: &mut Ch, thorough: bool) -> Option<Case> {
     let generic = ch.flag();
     let with_copy = ch.flag();
     let raw = ch.flag();
-    let bound = ch.pick(3);
+    let bound = ch.pick(4);
     let special = ch.pick(4);
     let entry = *ch.of(&Entry::BOTH);
     if special != 0 && (generic || with_copy || raw || bound != 0 || shape.total_fields() == 0 || entry == Entry::Derive && shape.variants.len() > 1) {
@@ -43,6 +44,9 @@ fn gen(ch: &mut Ch, thorough: bool) -> Option<Case> {
         return None;
     }
     if bound != 0 && (!generic || raw || entry == Entry::Derive || shape.variants.len() > 2 || shape.variants[0].n == 0) {
+        return None;
+    }
+    if bound == 3 && !(shape.is_enum && shape.variants.len() == 2 && shape.variants[1].n >= 1) {
         return None;
     }
     if with_copy && (generic || (entry == Entry::Derive && shape.variants.len() > 1)) {
@@ -61,7 +65,9 @@ fn gen(ch: &mut Ch, thorough: bool) -> Option<Case> {
 }
 
 fn field_ty(c: &Case, _vi: usize, fi: usize) -> String {
-    if c.special == 1 {
+    if c.bound == 3 && _vi == 0 {
+        "Rec".into()
+    } else if c.special == 1 {
         "RecI".into()
     } else if c.special == 2 {
         "(Rec, u8)".into()
@@ -75,8 +81,10 @@ fn field_ty(c: &Case, _vi: usize, fi: usize) -> String {
         "RecG<T>".into()
     }
 }
-fn field_val(c: &Case, fi: usize, id: u32) -> String {
-    if c.special == 1 {
+fn field_val(c: &Case, vi: usize, fi: usize, id: u32) -> String {
+    if c.bound == 3 && vi == 0 {
+        format!("Rec({id})")
+    } else if c.special == 1 {
         format!("RecI({id})")
     } else if c.special == 2 {
         format!("(Rec({id}), 7u8)")
@@ -104,7 +112,12 @@ fn build_inner(c: &Case, tier: &str) -> XCase {
     let sh = &c.shape;
     let ty = |vi: usize, fi: usize| field_ty(c, vi, fi);
     let noattrs = |vi: usize, fi: usize| if c.bound == 2 && vi == 0 && fi == 0 { vec!["#[derive_ex(Clone(bound(T: ::core::clone::Clone)))]".to_string()] } else { Vec::new() };
-    let item = sh.item(if c.generic { "<T>" } else { "" }, &ty, &noattrs);
+    let mut item = sh.item(if c.generic { "<T>" } else { "" }, &ty, &noattrs);
+    if c.bound == 3 {
+        if let Body::Enum(vs) = &mut item.body {
+            vs[0].attrs.push("#[derive_ex(Clone(bound()))]".into());
+        }
+    }
     let list = if c.with_copy { "Copy, Clone" } else if c.bound == 1 { "Clone(bound(T: ::core::clone::Clone))" } else { "Clone" };
     let head = match c.entry {
         Entry::Attr => format!("#[derive_ex({list})]"),
@@ -128,7 +141,7 @@ fn build_inner(c: &Case, tier: &str) -> XCase {
     s.push_str("fn mk(v: usize, base: u32) -> S {\n    match v {\n");
     for vi in 0..sh.variants.len() {
         let n = sh.variants[vi].n;
-        let args: Vec<String> = (0..n).map(|fi| field_val(c, fi, 0).replace("(0", &format!("(base + {}", vi * 10 + fi + 1))).collect();
+        let args: Vec<String> = (0..n).map(|fi| field_val(c, vi, fi, 0).replace("(0", &format!("(base + {}", vi * 10 + fi + 1))).collect();
         s.push_str(&format!("        {vi} => {},\n", sh.ctor(vi, &args)));
     }
     s.push_str("        _ => unreachable!(),\n    }\n}\n");
@@ -184,6 +197,23 @@ pub fn run(ctx: &Ctx, rep: &mut Report) {
         let st = explore(|ch| gen(ch, thorough), |_, c| cases.push(c));
         rep.stats.add(&st);
     }
-    let x: Vec<XCase> = cases.iter().map(|c| build(c, ctx.tier.name())).collect();
+    let mut x: Vec<XCase> = cases.iter().map(|c| build(c, ctx.tier.name())).collect();
+    if ctx.replay.is_none() {
+        // enums without variants have no value to clone, but the impl must compile
+        for (list, item) in [("Clone", "pub enum X {}"), ("Copy, Clone", "pub enum X {}"), ("Clone", "pub enum X<T> where T: Copy {}")] {
+            for entry in Entry::BOTH {
+                let head = match entry {
+                    Entry::Attr => format!("#[derive_ex({list})]"),
+                    Entry::Derive => format!("#[derive(Ex)]\n#[derive_ex({list})]"),
+                };
+                let generic = item.contains("<T>");
+                let code = format!("use derive_ex::{{derive_ex, Ex}};\n{head}\n{}\npub fn run() -> String {{ String::from(\"compiles\") }}\n", if generic { item.replace("<T> where T: Copy {}", "<T> where T: Copy { #[doc(hidden)] __Never(::core::convert::Infallible, ::core::marker::PhantomData<T>) }") } else { item.to_string() });
+                let mut atoms = BTreeSet::new();
+                atoms.insert(format!("entry={}", entry.name()));
+                atoms.insert("kind=empty-enum".to_string());
+                x.push(XCase { text: format!("{} {} {}", entry.name(), list, item), code, expected: "compiles".into(), atoms, nontrivial: true, detail: json!({"kind": "empty-enum", "entry": entry.name(), "item": item}), what: format!("derive_ex({list}) via {} on `{item}`", entry.name()), inner: 1, symptom: "clone-trace-or-result-differs".into(), must_compile: true });
+            }
+        }
+    }
     run_and_compare(rep, "c07", &x);
 }
